@@ -89,6 +89,13 @@ ShortWellFormed(n) == Len(n) = 1 /\ n[1] \in Letters
 ArgNameWellFormed(n) == Len(n) >= 1 /\ n[1] \in Letters /\ \A k \in 1..Len(n) : NameChar(n[k])
 LongNameOK(n) == LongWellFormed(StripPrefix(n, <<"-", "-">>))      \* with or without the "--" prefix
 ShortNameOK(n) == ShortWellFormed(StripPrefix(n, <<"-">>))         \* with or without the "-" prefix
+\* An alias of a command option is a long or a short name of its own.  What is claimed: an alias that is a well-formed long
+\* name (with or without "--") or short name (with or without "-") is accepted and kept without its prefix, and one that
+\* is neither even after removing any leading dashes is rejected; a long name behind a single dash ("-foo") is left open.
+AliasMust(n) == LongNameOK(n) \/ ShortNameOK(n)
+StripDashes(n) == StripPrefix(StripPrefix(n, <<"-">>), <<"-">>)
+AliasMay(n) == LongWellFormed(StripDashes(n)) \/ ShortWellFormed(StripDashes(n))
+AliasKept(n) == IF LongNameOK(n) THEN StripPrefix(n, <<"-", "-">>) ELSE StripPrefix(n, <<"-">>)
 
 \* ------------------------------------------------------------------ A-layer: the constructors as a step machine
 VARIABLES kind,      \* "opt" | "cmdopt" | "arg"
